@@ -64,15 +64,35 @@ ADHOC = {
     "S11o": [
         {"name": "S11o_FQ", "base": "optimized_bn128_FQ", "attrs": {"field_modulus": 11}},
         {"name": "S11o_FQ2", "base": "optimized_bn128_FQ2",
-         "attrs": {"field_modulus": 11, "FQ2_MODULUS_COEFFS": [1, 0]}},
+         "attrs": {"field_modulus": 11, "FQ2_MODULUS_COEFFS": [3, 0]}},
         {"name": "S11o_FQ12", "base": "optimized_bn128_FQ12",
          "attrs": {"field_modulus": 11}},
     ],
     "S19r": [
         {"name": "S19r_FQ", "base": "bls12_381_FQ", "attrs": {"field_modulus": 19}},
         {"name": "S19r_FQ2", "base": "bls12_381_FQ2",
-         "attrs": {"field_modulus": 19, "FQ2_MODULUS_COEFFS": [1, 0]}},
-        {"name": "S19r_FQ12", "base": "bls12_381_FQ12", "attrs": {"field_modulus": 19}},
+         "attrs": {"field_modulus": 19, "FQ2_MODULUS_COEFFS": [17, 0]}},
+        {"name": "S19r_FQ12", "base": "bls12_381_FQ12",
+         "attrs": {"field_modulus": 19,
+                   "FQ12_MODULUS_COEFFS": [3, 0, 0, 0, 0, 0, 1, 0, 0, 0, 0, 0]}},
+    ],
+    # children of *ad-hoc* classes with another prime and other modulus
+    # coefficients (parent first vs child first: inherited per-class state)
+    "C7o": [
+        {"name": "C7o_FQ", "base": "adhoc.F7o_FQ", "attrs": {"field_modulus": 5}},
+        {"name": "C7o_FQ2", "base": "adhoc.F7o_FQ2",
+         "attrs": {"field_modulus": 5, "FQ2_MODULUS_COEFFS": [2, 0]}},
+        {"name": "C7o_FQ12", "base": "adhoc.F7o_FQ12",
+         "attrs": {"field_modulus": 5,
+                   "FQ12_MODULUS_COEFFS": [3, 0, 0, 0, 0, 0, 1, 0, 0, 0, 0, 0]}},
+    ],
+    "C13r": [
+        {"name": "C13r_FQ", "base": "adhoc.F13r_FQ", "attrs": {"field_modulus": 11}},
+        {"name": "C13r_FQ2", "base": "adhoc.F13r_FQ2",
+         "attrs": {"field_modulus": 11, "FQ2_MODULUS_COEFFS": [3, 0]}},
+        {"name": "C13r_FQ12", "base": "adhoc.F13r_FQ12",
+         "attrs": {"field_modulus": 11,
+                   "FQ12_MODULUS_COEFFS": [5, 0, 0, 0, 0, 0, 4, 0, 0, 0, 0, 0]}},
     ],
     # same modulus as the library class, plain subclass (inherits everything)
     "Sub": [
@@ -85,7 +105,17 @@ ADHOC_INFO = {
     "F7o": dict(opt=True, p=7), "F13r": dict(opt=False, p=13),
     "S11o": dict(opt=True, p=11), "S19r": dict(opt=False, p=19),
     "Sub": dict(opt=True, p=BLS_P),
+    "C7o": dict(opt=True, p=5), "C13r": dict(opt=False, p=11),
 }
+ADHOC_REQUIRES = {"C7o": ["F7o"], "C13r": ["F13r"]}
+
+# dynamic families: classes that are defined and dropped *inside* a history
+# (pseudo-ops defclass / dropclass); their primes and modulus coefficients are
+# drawn per run, so only the names and the base kind are fixed here
+DYN_FAMS = {}
+for _i in range(14):
+    DYN_FAMS["K%d" % _i] = dict(opt=(_i % 3 != 2), p=None)
+SMALL_PRIMES = [5, 7, 11, 13, 17, 19, 23, 29, 31, 37, 41, 43, 47, 53, 59, 61, 67, 71]
 
 
 def cls_name(fam, lvl):
@@ -95,7 +125,7 @@ def cls_name(fam, lvl):
 
 
 def fam_info(fam):
-    return FAMS.get(fam) or ADHOC_INFO[fam]
+    return FAMS.get(fam) or ADHOC_INFO.get(fam) or DYN_FAMS[fam]
 
 
 MSGS = [b"", b"abc", b"\x00" * 32, bytes(range(64)), b"message-1", b"\xff" * 55]
@@ -143,7 +173,7 @@ def build_templates():
         T.append(Template(*a, **k))
 
     # ---- field classes -------------------------------------------------
-    for fam in list(FAMS) + list(ADHOC):
+    for fam in list(FAMS) + list(ADHOC) + list(DYN_FAMS):
         info = fam_info(fam)
         opt = info["opt"]
         slow = 1.0 if opt else 12.0
@@ -402,8 +432,12 @@ def build_templates():
     return T
 
 
-TEMPLATES = build_templates()
-BY_KIND = {t.kind: t for t in TEMPLATES}
+_ALL_TEMPLATES = build_templates()
+BY_KIND = {t.kind: t for t in _ALL_TEMPLATES}
+# the sweep / random catalogue; templates of dynamic families are only used by
+# the class-churn scenario
+DYN_TEMPLATES = [t for t in _ALL_TEMPLATES if t.group.startswith("field:K")]
+TEMPLATES = [t for t in _ALL_TEMPLATES if not t.group.startswith("field:K")]
 GROUPS = sorted({t.group for t in TEMPLATES})
 
 
@@ -485,6 +519,7 @@ class Gen:
         self.nreg = 0
         self.adhoc_used = set()
         self.enabled_fams = list(FAMS)
+        self.dyn_p = {}
 
     def fresh_reg(self):
         self.nreg += 1
@@ -519,7 +554,7 @@ class Gen:
 
     def lit_intv(self, fam):
         r = self.rng
-        p = fam_info(fam)["p"]
+        p = self.dyn_p.get(fam) or fam_info(fam)["p"]
         x = r.random()
         if x < 0.45:
             return r.choice([0, 1, 2, 3, 4, 5, 7, p - 1, p - 2, (p - 1) // 2, (p + 1) // 2])
@@ -1056,6 +1091,7 @@ class Scenarios(Gen):
 
     def enable_adhoc(self, spec, fams):
         have = {a["name"] for a in spec["adhoc_classes"]}
+        fams = [q for f in fams for q in ADHOC_REQUIRES.get(f, []) + [f]]
         for f in fams:
             for c in ADHOC[f]:
                 if c["name"] not in have:
@@ -1253,6 +1289,24 @@ class Scenarios(Gen):
             again["out"] = b.new_reg(tpl.out)
         b.ops.append(again)                       # equal (the very same) arguments again
         b.emit(tpl)                               # and other arguments
+        # vary exactly one argument, keep the others (the very same objects), then
+        # the original call once more: a memo whose key leaves one argument out
+        # answers the varied call with the first call's result
+        if tpl.gen is None and op1.get("args") and len(op1["args"]) == len(tpl.args) \
+                and not any(isinstance(a, str) and a.startswith("*") for a in tpl.args):
+            npos = len(op1["args"])
+            for pos in r.sample(range(npos), min(npos, 1 if tpl.cost > 50 else 2)):
+                varied = dict(op1)
+                varied["args"] = list(op1["args"])
+                varied["args"][pos] = self.arg(b, tpl.args[pos])
+                if "out" in varied:
+                    varied["out"] = b.new_reg(tpl.out)
+                b.ops.append(varied)
+            if tpl.cost <= 150 or r.random() < 0.3:
+                last = dict(op1)
+                if "out" in last:
+                    last["out"] = b.new_reg(tpl.out)
+                b.ops.append(last)
         if r.random() < 0.5:
             b.ops.append({"pseudo": "check", "full": True})
         two = r.random() < 0.4
@@ -1326,6 +1380,234 @@ class Scenarios(Gen):
         b = Builder(self)
         self.fill(b, cands, nops, 600)
         spec["tasks"] = [self.add_evictions(b.ops, p=0.6, gc_p=0.7)]
+        if faults:
+            self.plan_faults(spec, include_prelude=False)
+        return spec
+
+
+    # ---- same arguments across sibling entry points -------------------------------
+    def scn_crosssuite(self, faults=False):
+        """the same keys and messages used with all three ciphersuites in one
+        history (a point/hash memo that forgets the domain separation tag, a tag
+        or salt kept on the shared base class)"""
+        r = self.rng
+        spec = self.new_spec("crosssuite")
+        i = r.randrange(len(SKS))
+        js = r.sample(range(3), r.choice([1, 1, 2]))
+        sk = lit(SKS[i])
+        pk = self.pool_pk(i)
+        ops = []
+
+        def op(kind, args, out=None):
+            t = BY_KIND[kind]
+            o = {"fn": list(t.fn), "args": args, "kind": kind}
+            if out:
+                o["out"] = self.fresh_reg()
+            return o
+        heavy = r.random() < 0.5
+        tags = [b"BLS_SIG_BLS12381G2_XMD:SHA-256_SSWU_RO_NUL_",
+                b"BLS_SIG_BLS12381G2_XMD:SHA-256_SSWU_RO_AUG_",
+                b"BLS_SIG_BLS12381G2_XMD:SHA-256_SSWU_RO_POP_",
+                b"BLS_POP_BLS12381G2_XMD:SHA-256_SSWU_RO_POP_"]
+        for suite in SUITES:
+            per = []
+            for j in js:
+                m = lit(B(MSGS[j]))
+                per.append(op(suite + ".Sign", [sk, m], out=True))
+                sig = self.pool_sig(suite, i, j)
+                if heavy and pk is not None and sig is not None and r.random() < 0.6:
+                    per.append(op(suite + ".Verify", [lit(pk), m, lit(sig)]))
+                if r.random() < 0.3:
+                    per.append(op(suite + "._CoreSign", [sk, m, lit(B(r.choice(tags)))],
+                                  out=True))
+            per.append(op(suite + ".SkToPk", [sk], out=True))
+            per.append(op(suite + ".KeyGen", [lit(B(b"ikm-1" * 8))], out=True))
+            if r.random() < 0.5:
+                per.append(op(suite + ".KeyGen(info)", [lit(B(b"ikm-1" * 8)), lit(B(b"info"))],
+                              out=True))
+            if pk is not None:
+                per.append(op(suite + "._is_valid_pubkey", [lit(pk)]))
+            ops.append(per)
+        if r.random() < 0.6:
+            ops[2].append(op("POP.PopProve", [sk], out=True))
+            pop = self.pool_pop(i)
+            if heavy and pk is not None and pop is not None and r.random() < 0.5:
+                ops[2].append(op("POP.PopVerify", [lit(pk), lit(pop)]))
+        # hash layer: same message, every tag
+        hl = []
+        if r.random() < 0.7:
+            m = lit(B(MSGS[js[0]]))
+            for tg in r.sample(tags, r.randint(2, 4)):
+                hl.append(op(r.choice(["h2c.hash_to_G2", "h2c.hash_to_G2", "h2c.hash_to_G1"]),
+                             [m, lit(B(tg)), lit(HASHFNS[0])], out=True))
+        # interleave the suites: round-robin with random rotation, or suite by suite
+        flat = []
+        if r.random() < 0.6:
+            order = list(range(3))
+            r.shuffle(order)
+            k = 0
+            while any(ops[q] for q in order):
+                q = order[k % 3]
+                k += 1
+                if ops[q]:
+                    flat.append(ops[q].pop(0))
+        else:
+            order = list(range(3))
+            r.shuffle(order)
+            for q in order:
+                flat += ops[q]
+        for h in hl:
+            flat.insert(r.randrange(len(flat) + 1), h)
+        if r.random() < 0.35 and len(flat) > 6:
+            cut = len(flat) // 2
+            spec["tasks"] = [flat[:cut], flat[cut:]]
+            self.plan_schedule(spec, r.choice(["pct", "boundary", "mixed"]))
+        else:
+            spec["tasks"] = [flat]
+        if faults:
+            self.plan_faults(spec, nf=r.choice([1, 2]), include_prelude=False)
+        return spec
+
+    def scn_sharedvals(self, faults=False):
+        """the same integers pushed through every field family (both curves,
+        reference and optimized, ad-hoc classes) in a seeded order: a memo or
+        class attribute whose key leaves out the class / the prime / the modulus
+        polynomial answers one family with another family's value"""
+        r = self.rng
+        spec = self.new_spec("sharedvals")
+        adhoc = r.sample(list(ADHOC), r.choice([1, 2, 3, 4]))
+        self.enable_adhoc(spec, adhoc)
+        adhoc = [a for a in ADHOC if any(c["name"].startswith(a + "_")
+                                         for c in spec["adhoc_classes"])]
+        fams = list(FAMS) + adhoc
+        lvl = r.choice(["FQ", "FQ2", "FQ2", "FQ12"])
+        deg = DEG[lvl]
+        small = r.random() < 0.6
+
+        def ints():
+            if small:
+                return [r.choice([0, 1, 2, 3, 4, 5, 6]) for _ in range(deg)]
+            return [r.choice([0, 1, 2, r.getrandbits(60), r.getrandbits(200)])
+                    for _ in range(deg)]
+        va, vb = ints(), ints()
+        if not any(va):
+            va[0] = 3
+        if not any(vb):
+            vb[-1] = 2
+        e = r.choice([2, 3, 5, 7, 11, 65537, r.getrandbits(40)])
+        unary = r.sample(["neg", "inv", "sgn0", "repr"], 2)
+        binary = r.sample(["mul", "add", "sub", "truediv", "eq"], 3)
+        rounds = r.randint(2, 3)
+        order = []
+        for _ in range(rounds):
+            fs = fams[:]
+            r.shuffle(fs)
+            order += fs[: r.randint(3, len(fs))]
+        b = Builder(self)
+        for fam in order:
+            k = "%s.%s" % (fam, lvl)
+            if lvl == "FQ":
+                x = b.emit(k + ".ctor(int)", args=[lit(va[0])])
+                y = b.emit(k + ".ctor(int)", args=[lit(vb[0])])
+            else:
+                x = b.emit(k + ".ctor(ints)", args=[lit(["list", list(va)])])
+                y = b.emit(k + ".ctor(ints)", args=[lit(["tuple", list(vb)])])
+            rx, ry = {"reg": x["out"]}, {"reg": y["out"]}
+            for o in binary:
+                if (k + "." + o) in BY_KIND:
+                    b.emit(k + "." + o, args=[rx, ry])
+            for o in unary:
+                if (k + "." + o) in BY_KIND:
+                    b.emit(k + "." + o, args=[rx])
+            b.emit(k + ".pow", args=[rx, lit(e)])
+            if (k + ".mul(x,int)") in BY_KIND and r.random() < 0.5:
+                b.emit(k + ".mul(x,int)", args=[rx, lit(va[-1] + 2)])
+        ops = b.ops
+        if r.random() < 0.3:
+            ops = self.add_evictions(ops, p=0.3)
+        spec["tasks"] = [ops]
+        if faults:
+            self.plan_faults(spec, include_prelude=False)
+        return spec
+
+    def scn_classchurn(self, faults=False, rounds=None):
+        """ad-hoc field classes are defined, used and dropped (then collected)
+        inside the history, with other primes and modulus polynomials each time:
+        library state keyed by the identity of a class or of its coefficient
+        tuple outlives the class and is picked up by a later one"""
+        r = self.rng
+        spec = self.new_spec("classchurn")
+        rounds = rounds or r.randint(5, 12)
+        names = list(DYN_FAMS)
+        r.shuffle(names)
+        names = names[:rounds]
+        ops = []
+        alive = []          # [(fam, [regs])]
+        lvl_choices = ["FQ2", "FQ2", "FQ12", "FQ"]
+        for fam in names:
+            opt = DYN_FAMS[fam]["opt"]
+            p = r.choice(SMALL_PRIMES)
+            self.dyn_p[fam] = p
+            c2 = [r.randrange(1, p), r.choice([0, 0, r.randrange(p)])]
+            c12 = [0] * 12
+            c12[0] = r.randrange(1, p)
+            c12[r.choice([3, 6, 6, 9])] = r.choice([-1, 1, -2, 2, r.randrange(1, p)])
+            if r.random() < 0.2:
+                c12 = [r.randrange(p) for _ in range(12)]
+                c12[0] = c12[0] or 1
+            base = "opt" if opt else "ref"
+            x = r.random()
+            # some classes derive from the library's own curve classes
+            lib = None
+            if x < 0.25:
+                lib = r.choice(["optimized_bn128", "optimized_bls12_381"] if opt
+                               else ["bn128", "bls12_381"])
+            specs = []
+            for lvl in LEVELS:
+                attrs = {"field_modulus": p}
+                if lvl == "FQ2":
+                    attrs["FQ2_MODULUS_COEFFS"] = c2
+                if lvl == "FQ12":
+                    attrs["FQ12_MODULUS_COEFFS"] = c12
+                specs.append({"name": "%s_%s" % (fam, lvl), "dynamic": True,
+                              "base": ("%s_%s" % (lib, lvl)) if lib else "%s.%s" % (base, lvl),
+                              "attrs": attrs})
+            spec["adhoc_classes"] += specs
+            ops.append({"pseudo": "defclass", "names": [c["name"] for c in specs]})
+            b = Builder(self)
+            lvl = r.choice(lvl_choices)
+            k = "%s.%s" % (fam, lvl)
+            n0 = DEG[lvl]
+            if lvl == "FQ":
+                b.emit(k + ".ctor(int)")
+                b.emit(k + ".ctor(int)")
+            else:
+                b.emit(k + ".ctor(ints)", args=[lit(["list", [r.randrange(1, p)
+                                                              for _ in range(n0)]])])
+                b.emit(k + ".ctor(ints)", args=[lit(["tuple", [r.randrange(p)
+                                                               for _ in range(n0)]])])
+            cands = [t for t in DYN_TEMPLATES if t.group == "field:" + fam and
+                     t.kind.startswith(k + ".") and
+                     t.kind.rsplit(".", 1)[1] in ("mul", "pow", "inv", "truediv", "add", "sub",
+                                                  "sgn0", "mul(x,int)", "eq", "neg", "one")]
+            self.fill(b, cands, len(b.ops) + r.randint(2, 5), 1e9)
+            ops += b.ops
+            alive.append((fam, [c["name"] for c in specs],
+                          [o["out"] for o in b.ops if o.get("out")]))
+            # drop this class (or an older one) now, later, or never
+            while alive and r.random() < (0.75 if len(alive) == 1 else 0.9):
+                idx = r.randrange(len(alive)) if r.random() < 0.3 else 0
+                fam_d, cls_d, regs_d = alive.pop(idx)
+                ops.append({"pseudo": "dropclass", "names": cls_d, "regs": regs_d})
+                if len(alive) == 0:
+                    break
+        spec["tasks"] = [ops]
+        if r.random() < 0.25:
+            b2 = Builder(self)
+            cands = self.choose_templates({"field:optimized_bn128", "field:bls12_381"}, 5)
+            self.fill(b2, cands, r.randint(3, 8), 200)
+            spec["tasks"].append(b2.ops)
+            self.plan_schedule(spec, r.choice(["pct", "boundary"]))
         if faults:
             self.plan_faults(spec, include_prelude=False)
         return spec
